@@ -14,7 +14,7 @@ ID = 'C01'
 LEVEL = 'exploration'
 RULE = (
     "A case is one storage layout plus a list of index expressions. (small) exhaustive: for every "
-    "n<=6 (quick) / <=7 (thorough), every composition of n into flat files (header offsets and "
+    "n<=6 (quick) / <=8 (thorough), every composition of n into flat files (header offsets and "
     "sample dtypes cycling over {0,1,7,16} x {int16,int32,uint8,float32,float64}, file names in "
     "ascending, descending or run_8/run_9/run_10 lexicographic order) "
     " plus single-part "
@@ -72,8 +72,8 @@ def drivers(tier):
     return [
         dict(kind='enum', name='small', exhaustive=True,
              bound='n<=%d, all compositions, all index expressions x 5 column selectors' %
-                   (7 if th else 6),
-             cases=lambda: _small_cases(7 if th else 6)),
+                   (8 if th else 6),
+             cases=lambda: _small_cases(8 if th else 6)),
         dict(kind='hyp', name='rand', strategy=_rand_case(), examples=150000 if th else 10000),
     ]
 
